@@ -48,6 +48,8 @@ def run(ctx, replay):
     cases = vlib.export_cases(a)
     if len(cases) != a.distinct:
         raise vlib.MachineryError("export: %d cases for %d states" % (len(cases), a.distinct))
+    for i, c in enumerate(cases):
+        c["rot"] = i     # how an abstract key is realised (which member is the broken one, curve, padding of the key-set file)
     traces, sums = vlib.drive_cases(ctx, "c18", cases, nchunks=8)
     t2, s2 = vlib.drive_gen(ctx, "c18", 1, extra=["-lib", "1"])
     n, bad = vlib.judge(ctx, "Trace_KeyPolicy", traces + t2, cfg_text=TCFG)
